@@ -26,6 +26,10 @@ CLAIMS = {
          "array classification (equal -> Array, differing -> Tuple in order, objects -> folded Object) and the three key laws of the array-of-objects fold "
          "(union of keys, everywhere-present keys unchanged, partly-present keys optional). Oracle independent of the model: the implementation's result is "
          "recomputed from its own results on the sub-documents.", "6/C17"),
+ "C08": ("Ten theorems: merger idempotent (all wf shapes), null-absorbing on both sides (exactly the optional form), order-insensitive up to meaning (mem d (merger a b) = mem d (merger b a) "
+         "for all wf a, b), per-key object equation, array equation, scalar-kind pairs give exactly the OneOf of the two, plus the from_sources corollaries. "
+         "Correspondence: merger on all 103041 level-1 pairs and random related deep pairs in both orders, from_sources on pairs and wrapped pairs; oracle: "
+         "laws re-evaluated on the implementation, order-insensitivity by witness documents validated by Sem.mem.", "6/C08"),
  "C10": ("Six theorems prove reflexivity, optional widening, null-in-optional and the similar laws for ALL well-formed shapes; model tied to /repo by "
          "all 103041 level-1 pairs plus random deep related pairs; statements re-evaluated on the implementation's own answers.", "6/C10"),
 }
